@@ -11,7 +11,7 @@ Request:  `id ep op=<glwe|cmux|cmux_assign|cmux_assign_neg|mat> big=<0|1> n=N bo
 Answer:   `id <C>x<S>:<ints>` (cells separated by `;` for `op=mat`), `panic:<class>` or `err:<kind>`.
 
 Canonical order of every integer list: (cell,) column, limb, coefficient — decimal, comma separated.
-`g` lists the GGSW cells in (row, input column) order.  In-place forms are requested with `a` = the
+`g` lists the EpGGSW cells in (row, input column) order.  In-place forms are requested with `a` = the
 prior content of `res` (`op=glwe`, `bi = bo`, `so` = its size).
 -/
 
@@ -60,7 +60,7 @@ def handle (ts : List String) : String :=
     let cols := rank + 1
     if gd.length != dnum * cols * cols * gsize * n then "err:parse-g" else
     let cells := (chunk (cols * gsize * n) gd).map (mkCols n cols gsize)
-    let g : GGSW := { base2k := gb, n := n, rank := rank, dsize := dsize, dnum := dnum, size := gsize, cells := cells }
+    let g : EpGGSW := { base2k := gb, n := n, rank := rank, dsize := dsize, dnum := dnum, size := gsize, cells := cells }
     let zero := zeroCols n cols gsize
     let r0 := ((kv ts "r0").bind (parseVec n)).getD zero
     let t0 := ((kv ts "t0").bind (parseVec n)).getD zero
